@@ -166,6 +166,27 @@ def _check_orders(cls, o, directed, bad, label):
     for order in o["orders"]:
         g = _weighted(cls, o, directed)
         for step, q in enumerate(order):
+            if q in ("p", "m", "q"):
+                # queries whose answers are checked elsewhere; here they only have to leave the graph alone
+                try:
+                    if q == "p":
+                        for s in range(n):
+                            for t in range(n):
+                                if s != t:
+                                    g.find_path(s, t)
+                    elif q == "m":
+                        if not directed and o.get("mst", -1) >= 0:
+                            g.minimum_spanning_tree(0)
+                    else:
+                        g.n_edges, g.n_vertices, g.has_cycles(), g.has_isolated_vertices(), g.isolated_vertices(), g.get_adjacency_list()
+                        if hasattr(g, "edges"):
+                            g.edges
+                        for v in range(n):
+                            g.n_paths(0, v) if n <= 5 else None
+                except Exception as e:
+                    bad.append((label + "query %r raised %s" % (q, type(e).__name__), {"order": order, "step": step, "msg": str(e)[:100]}, None))
+                    break
+                continue
             tbl = wd if q == "w" else hd
             D = np.asarray(g.find_all_shortest_paths(unweighted=(q == "u"))[0], dtype=float)
             if D.shape != (n, n) or not np.array_equal(D, want(tbl)):
